@@ -40,6 +40,7 @@
 #include <hgraph/types/wired_fn.h>
 
 #include <algorithm>
+#include <cstdlib>
 #include <map>
 #include <optional>
 #include <stdexcept>
@@ -231,6 +232,18 @@ namespace
             NodeView p = g.as_nested().parent_node();
             return p.valid() && p.is<MeshNodeView>();
         }
+        void on_after_start_graph(const GraphView &g) override
+        {
+            static const bool dbg = std::getenv("MESH_DEBUG") != nullptr;
+            if (dbg && mesh_child(g))
+            {
+                for (std::size_t i = 0; i < g.node_count(); ++i)
+                {
+                    std::fprintf(stderr, "child node %zu '%.*s' sched=%lld\n", i, (int)g.node_at(i).label().size(),
+                                 g.node_at(i).label().data(), (long long)us(g.node_scheduled_time(i)));
+                }
+            }
+        }
         void on_before_graph_evaluation(const GraphView &g) override
         {
             if (!g.is_nested())
@@ -272,6 +285,12 @@ namespace
             if (l[0] == 1 && l.size() >= 3) { ctx.start = l[1]; ctx.end = l[2]; }
             else if (l[0] == 2 && l.size() >= 2) { ctx.explicit_keys = l[1]; }
             else if (l[0] == 3 && l.size() >= 6 && l[1] >= 0 && l[1] <= 3) { ctx.dict[l[1]][l[2]].push_back({l[3], l[4], l[5]}); }
+        }
+        if (ctx.start < 1 || ctx.end < ctx.start || ctx.end > 1000000)
+        {
+            out.line({19, 1});      // rejected before anything is built (the executor rejects such a window)
+            G = nullptr;
+            return;
         }
         try
         {
